@@ -59,6 +59,26 @@ func canonParas(ps []control.Paragraph) string {
 	return gen.CanonRef(ref)
 }
 
+// rd is the reader an entry point hands to the library. An input that starts with the delivery marker is delivered under
+// that mode of gen.Delivery (chunk sizes, the final bytes together with io.EOF, answers without bytes): how the bytes
+// arrive is not part of "the input", so the outcome must not depend on it.
+const deliveryMark = "\x00DELIVERY"
+
+func withDelivery(mode int, text string) string { return fmt.Sprintf("%s%+d\x00%s", deliveryMark, mode, text) }
+
+func rd(in string) io.Reader {
+	if strings.HasPrefix(in, deliveryMark) {
+		rest := in[len(deliveryMark):]
+		if i := strings.IndexByte(rest, 0); i > 0 {
+			var m int
+			if _, err := fmt.Sscanf(rest[:i], "%d", &m); err == nil {
+				return gen.Delivery(rest[i+1:], m)
+			}
+		}
+	}
+	return strings.NewReader(in)
+}
+
 // EntryPoints lists every parser the property names.
 var EntryPoints = []EntryPoint{
 	{"version.Parse", func(in string) Result {
@@ -95,7 +115,7 @@ var EntryPoints = []EntryPoint{
 		return Result{s, e, t, d != nil}
 	}},
 	{"control.ParagraphReader", func(in string) Result {
-		pr, err := control.NewParagraphReader(strings.NewReader(in), nil)
+		pr, err := control.NewParagraphReader(rd(in), nil)
 		if err != nil {
 			e, t := errRes(err)
 			return Result{"", e, t, pr != nil}
@@ -109,7 +129,7 @@ var EntryPoints = []EntryPoint{
 		return Result{canonParas(ps) + "|" + out.String(), e, t, len(ps) > 0}
 	}},
 	{"control.ParagraphReader.Next", func(in string) Result {
-		pr, err := control.NewParagraphReader(strings.NewReader(in), nil)
+		pr, err := control.NewParagraphReader(rd(in), nil)
 		if err != nil {
 			e, t := errRes(err)
 			return Result{"", e, t, false}
@@ -128,7 +148,7 @@ var EntryPoints = []EntryPoint{
 		return Result{"runaway", true, "more than 1000000 paragraphs", true}
 	}},
 	{"control.ParseDsc", func(in string) Result {
-		d, err := control.ParseDsc(bufio.NewReader(strings.NewReader(in)), "/x/y.dsc")
+		d, err := control.ParseDsc(bufio.NewReader(rd(in)), "/x/y.dsc")
 		e, t := errRes(err)
 		s := ""
 		if d != nil {
@@ -137,7 +157,7 @@ var EntryPoints = []EntryPoint{
 		return Result{s, e, t, d != nil}
 	}},
 	{"control.ParseChanges", func(in string) Result {
-		c, err := control.ParseChanges(bufio.NewReader(strings.NewReader(in)), "/x/y.changes")
+		c, err := control.ParseChanges(bufio.NewReader(rd(in)), "/x/y.changes")
 		e, t := errRes(err)
 		s := ""
 		if c != nil {
@@ -146,7 +166,7 @@ var EntryPoints = []EntryPoint{
 		return Result{s, e, t, c != nil}
 	}},
 	{"control.ParseControl", func(in string) Result {
-		c, err := control.ParseControl(bufio.NewReader(strings.NewReader(in)), "/x/control")
+		c, err := control.ParseControl(bufio.NewReader(rd(in)), "/x/control")
 		e, t := errRes(err)
 		s := ""
 		if c != nil {
@@ -155,28 +175,28 @@ var EntryPoints = []EntryPoint{
 		return Result{s, e, t, c != nil}
 	}},
 	{"control.ParseBinaryIndex", func(in string) Result {
-		l, err := control.ParseBinaryIndex(bufio.NewReader(strings.NewReader(in)))
+		l, err := control.ParseBinaryIndex(bufio.NewReader(rd(in)))
 		e, t := errRes(err)
 		return Result{fmt.Sprintf("%+v", l), e, t, len(l) > 0}
 	}},
 	{"control.ParseSourceIndex", func(in string) Result {
-		l, err := control.ParseSourceIndex(bufio.NewReader(strings.NewReader(in)))
+		l, err := control.ParseSourceIndex(bufio.NewReader(rd(in)))
 		e, t := errRes(err)
 		return Result{fmt.Sprintf("%+v", l), e, t, len(l) > 0}
 	}},
 	{"deb.Control", func(in string) Result {
 		var c deb.Control
-		err := control.Unmarshal(&c, strings.NewReader(in))
+		err := control.Unmarshal(&c, rd(in))
 		e, t := errRes(err)
 		return Result{fmt.Sprintf("%+v", c), e, t, false}
 	}},
 	{"changelog.Parse", func(in string) Result {
-		l, err := changelog.Parse(strings.NewReader(in))
+		l, err := changelog.Parse(rd(in))
 		e, t := errRes(err)
 		return Result{fmt.Sprintf("%+v", l), e, t, len(l) > 0}
 	}},
 	{"changelog.ParseOne", func(in string) Result {
-		c, err := changelog.ParseOne(bufio.NewReader(strings.NewReader(in)))
+		c, err := changelog.ParseOne(bufio.NewReader(rd(in)))
 		e, t := errRes(err)
 		s := ""
 		if c != nil {
@@ -330,6 +350,7 @@ func Run(r *mc.Run) {
 	runLong(r)
 	runEdits(r)
 	runDeterminism(r)
+	runDeliveries(r)
 	runSchedules(r)
 	runRace(r)
 }
@@ -485,6 +506,23 @@ func longInputs() []In {
 	add("control.ParseBinaryIndex", rep("Package: p\nVersion: 1.0-1\nArchitecture: amd64\nInstalled-Size: 1\nSize: 2\n\n", 900), "Package: p\nTag: "+rep("a::b, ", 10000)+"c\n")
 	add("control.ParseSourceIndex", rep("Package: p\nBinary: a, b\nVersion: 1.0-1\nArchitecture: any all\n\n", 1000))
 	add("deb.Control", "Package: p\nVersion: 1\nArchitecture: amd64\nDescription: s\n"+rep(" long line\n", 6000))
+	// lines whose length in bytes and in characters differ (2-, 3- and 4-byte UTF-8), around lengths at which messages
+	// are commonly cut (60..100 characters), in every position where a parser quotes or measures its input
+	for _, ch := range []string{"\u00e9", "\u65e5", "\U0001f600"} {
+		for _, n := range []int{24, 25, 36, 37, 40, 72, 73, 80, 100} {
+			w := rep(ch, n)
+			add("control.ParagraphReader", w+"\n", " "+w+"\n", "A: 1\n"+w+"\n", "A: "+w+"\n "+w+"\n", w+": v\n", "#"+w+"\nA: v\n")
+			add("control.ParagraphReader.Next", w+"\n", "A: 1\n\n "+w+"\n")
+			add("control.ParseDsc", "Source: "+w+"\nVersion: "+w+"\n", "Source: x\nFiles:\n "+w+"\n", "Source: x\nBuild-Depends: "+w+" ("+w+")\n", "Source: x\nArchitecture: "+w+"\n")
+			add("control.ParseChanges", "Source: x\nFiles:\n "+w+" 1 a b c\n", "Source: x\nChecksums-Sha256:\n "+w+"\n")
+			add("control.ParseBinaryIndex", "Package: p\nInstalled-Size: "+w+"\n", "Package: p\nSize: "+w+"\n")
+			add("version.Parse", w, "1:"+w, w+":1", "1-"+w)
+			add("dependency.ParseArch", w, w+"-any", "any-"+w)
+			add("dependency.Parse", w, "a ("+w+")", "a (>= "+w+")", "a ["+w+"]", "a <"+w+">", "a:"+w, "${"+w, w+" "+w)
+			add("changelog.Parse", w+"\n", "hello ("+w+") unstable; urgency=low\n\n  * x\n\n -- A <a@b>  Mon, 02 Jan 2006 15:04:05 +0100\n", "hello (1.0-1) unstable; urgency=low\n\n  * x\n\n -- "+w+" <a@b>  Mon, 02 Jan 2006 15:04:05 +0100\n",
+				"hello (1.0-1) unstable; urgency=low\n\n  * x\n\n -- A <a@b>  "+w+"\n", "hello (1.0-1) "+w+"; "+w+"\n\n  * x\n\n -- A <a@b>  Mon, 02 Jan 2006 15:04:05 +0100\n")
+		}
+	}
 	entry := "hello (1.0-1) unstable; urgency=low\n\n  * x\n\n -- A <a@b>  Mon, 02 Jan 2006 15:04:05 +0100\n\n"
 	add("changelog.Parse", rep(entry, 600), "hello (1.0-1) unstable; urgency=low\n\n"+rep("  * x\n", 10000)+"\n -- A <a@b>  Mon, 02 Jan 2006 15:04:05 +0100\n", "hello (1.0-1) unstable; "+rep("k=v, ", 12000)+"z=1\n\n  * x\n\n -- A <a@b>  Mon, 02 Jan 2006 15:04:05 +0100\n", rep("\n", 70000))
 	add("changelog.ParseOne", entry, "hello (1.0-1) "+rep("unstable ", 7000)+"; urgency=low\n\n  * x\n\n -- A <a@b>  Mon, 02 Jan 2006 15:04:05 +0100\n")
@@ -493,7 +531,7 @@ func longInputs() []In {
 
 func runLong(r *mc.Run) {
 	ins := longInputs()
-	r.Scenario("totality-long-inputs", map[string]interface{}{"inputs": len(ins), "sizes": "up to ~70 KB, one repeated component each"}, len(ins), func(i int, st *mc.Stats) bool {
+	r.Scenario("totality-long-inputs", map[string]interface{}{"inputs": len(ins), "sizes": "up to ~70 KB, one repeated component each; plus lines of 24..100 multi-byte characters (2-, 3-, 4-byte UTF-8) in every position a parser measures or quotes"}, len(ins), func(i int, st *mc.Stats) bool {
 		st.Evals++
 		sl := enter(i, ins[i].Entry, ins[i].Text)
 		v, res := checkTotal("totality-long-inputs", ins[i], true)
@@ -606,6 +644,69 @@ func checkDet(scen string, in DetIn) *mc.Violation {
 	return nil
 }
 
+// ---- the outcome does not depend on how the bytes are delivered ----
+
+type DelIn struct {
+	Entry, Text string
+	Mode        int
+}
+
+var readerEntries = []string{"control.ParagraphReader", "control.ParagraphReader.Next", "control.ParseDsc", "control.ParseChanges", "control.ParseControl",
+	"control.ParseBinaryIndex", "control.ParseSourceIndex", "deb.Control", "changelog.Parse", "changelog.ParseOne"}
+
+func checkDelivery(scen string, in DelIn) *mc.Violation {
+	ep := entry(in.Entry)
+	if ep == nil {
+		return nil
+	}
+	var whole, chunked Result
+	if p, msg := mc.Guard(func() {
+		whole = ep.Call(in.Text)
+		chunked = ep.Call(withDelivery(in.Mode, in.Text))
+	}); p {
+		return mc.V(scen, "returns-without-panic", in, "no panic", msg, "entry:"+in.Entry)
+	}
+	if whole.key() != chunked.key() {
+		return mc.V(scen, "outcome-depends-only-on-input", in, clip(whole.key()), fmt.Sprintf("the same bytes under delivery mode %d: %s", in.Mode, clip(chunked.key())), "entry:"+in.Entry)
+	}
+	return nil
+}
+
+func runDeliveries(r *mc.Run) {
+	var ins []In
+	for _, e := range readerEntries {
+		for _, s := range seeds[e] {
+			ins = append(ins, In{e, s})
+		}
+	}
+	modes := []int{1, 2, -1, -2, -3}
+	r.Scenario("determinism-across-deliveries", map[string]interface{}{"inputs": len(ins), "delivery_modes": "one byte per Read / 7-byte chunks / final bytes together with io.EOF (whole, chunked) / (0, nil) answers / a split at every offset up to 40 and at the last",
+		"entry_points": readerEntries}, len(ins), func(i int, st *mc.Stats) bool {
+		ms := append([]int{}, modes...)
+		for off := 1; off < len(ins[i].Text) && off <= 40; off++ {
+			ms = append(ms, 3+off)
+		}
+		if n := len(ins[i].Text); n > 41 {
+			ms = append(ms, 3+n-1)
+		}
+		for _, m := range ms {
+			st.Evals++
+			st.Traces++
+			st.Nontrivial++
+			sl := enter(i, ins[i].Entry, ins[i].Text)
+			v := checkDelivery("determinism-across-deliveries", DelIn{ins[i].Entry, ins[i].Text, m})
+			sl.leave()
+			if v != nil {
+				st.Violate(v)
+				st.Class("differs")
+			} else {
+				st.Class("identical")
+			}
+		}
+		return true
+	})
+}
+
 func detInputs() []In {
 	var out []In
 	for _, ep := range EntryPoints {
@@ -641,6 +742,13 @@ func runDeterminism(r *mc.Run) {
 
 func Replay(scenario string, raw json.RawMessage) []*mc.Violation {
 	switch {
+	case scenario == "determinism-across-deliveries":
+		var in DelIn
+		if mc.UnmarshalInput(raw, &in) == nil {
+			if v := checkDelivery(scenario, in); v != nil {
+				return []*mc.Violation{v}
+			}
+		}
 	case strings.HasPrefix(scenario, "determinism"):
 		var in DetIn
 		if mc.UnmarshalInput(raw, &in) == nil {
